@@ -5,6 +5,7 @@ import (
 
 	"github.com/renbou/grpcbridge/bridgelog"
 	"github.com/renbou/grpcbridge/grpcadapter"
+	"github.com/renbou/grpcbridge/internal/rpcutil"
 	"github.com/renbou/grpcbridge/routing"
 	"google.golang.org/grpc"
 	"google.golang.org/grpc/metadata"
@@ -87,12 +88,30 @@ type grpcServerStream struct {
 	grpc.ServerStream
 }
 
-func (s grpcServerStream) Recv(_ context.Context, msg proto.Message) error {
-	return s.ServerStream.RecvMsg(msg)
+// Recv and Send must support context cancelation as required by the Forwarder,
+// otherwise an idle client would block Forward, and the call with it, until it sends or closes something,
+// even though the target has already ended the call.
+// RecvMsg and SendMsg are guaranteed to return once the handler returns, so no goroutines are leaked.
+func (s grpcServerStream) Recv(ctx context.Context, msg proto.Message) error {
+	return streamWithCtx(ctx, func() error { return s.ServerStream.RecvMsg(msg) })
 }
 
-func (s grpcServerStream) Send(_ context.Context, msg proto.Message) error {
-	return s.ServerStream.SendMsg(msg)
+func (s grpcServerStream) Send(ctx context.Context, msg proto.Message) error {
+	return streamWithCtx(ctx, func() error { return s.ServerStream.SendMsg(msg) })
+}
+
+func streamWithCtx(ctx context.Context, f func() error) error {
+	errChan := make(chan error, 1)
+	go func() {
+		errChan <- f()
+	}()
+
+	select {
+	case <-ctx.Done():
+		return rpcutil.ContextError(ctx.Err())
+	case err := <-errChan:
+		return err
+	}
 }
 
 func (s grpcServerStream) SetHeader(md metadata.MD) {
